@@ -140,6 +140,17 @@ fn op_list(thorough: bool) -> Vec<SendOp> {
         let rp = ExternalReference::new(Atom::new("p@h"), 2, vec![5, 6]);
         for r in [&rl, &rp, &rl] { ops.push(SendOp::Monitor { from: pid_plain(4), to: plain.clone(), r: r.clone() }); }
     }
+    // pairs in every order of node name, id, serial and creation (an operation's two pids are positions, not a set)
+    {
+        let mk = |n: &str, id: u32, serial: u32, cr: u32| ExternalPid::new(Atom::new(n), id, serial, cr);
+        let pairs = [(mk("z@h", 1, 0, 1), mk("a@h", 1, 0, 1)), (mk("a@h", 1, 0, 1), mk("z@h", 1, 0, 1)), (mk("n@h", 9, 0, 1), mk("n@h", 2, 0, 1)), (mk("n@h", 2, 5, 1), mk("n@h", 2, 1, 1)), (mk("n@h", 2, 1, 7), mk("n@h", 2, 1, 3)), (mk("n@h", 2, 1, 3), mk("n@h", 2, 1, 3))];
+        for (a, b) in pairs {
+            ops.push(SendOp::Link { from: a.clone(), to: b.clone() });
+            ops.push(SendOp::Unlink { from: a.clone(), to: b.clone(), id: 5 });
+            ops.push(SendOp::Monitor { from: a.clone(), to: b.clone(), r: r3.clone() });
+            ops.push(SendOp::Demonitor { from: a, to: b, r: r3.clone() });
+        }
+    }
     // senders whose numbers need the wide pid format (id >= 2^15, serial >= 2^13) and a creation beyond two bits
     {
         let wide = ExternalPid::new(Atom::new("me@127.0.0.1"), 40_000, 9_000, 0x0102_0304);
